@@ -685,44 +685,206 @@ def _mangled(cls_name: str | None, name: str) -> list[str]:
     return out
 
 
+def _binding_conflict(trees: dict, name: str, scope: str, modname: str) -> bool:
+    """is `name` already bound to something in the namespace the reference name lives in (its class, or any module's
+    top level for a module-level function)?"""
+    for mn, t in trees.items():
+        if scope:
+            if mn != modname:
+                continue
+            for c in ast.walk(t):
+                if isinstance(c, ast.ClassDef) and c.name == scope:
+                    for st in c.body:
+                        if isinstance(st, (*FuncT, ast.ClassDef)) and st.name == name:
+                            return True
+                        if isinstance(st, (ast.Assign, ast.AnnAssign)) and any(isinstance(x, ast.Name) and x.id == name for x in ast.walk(st)):
+                            return True
+            continue
+        for st in t.body:
+            if isinstance(st, (*FuncT, ast.ClassDef)) and st.name == name:
+                return True
+            if isinstance(st, (ast.Assign, ast.AnnAssign)):
+                tg = st.targets if isinstance(st, ast.Assign) else [st.target]
+                if any(isinstance(x, ast.Name) and x.id == name for x in tg):
+                    return True
+            if isinstance(st, (ast.Import, ast.ImportFrom)) and any((a.asname or a.name).split(".")[0] == name for a in st.names):
+                return True
+    return False
+
+
+def _shape(fn) -> str:
+    """structure of a function with every identifier blanked (to propose rename / move candidates)"""
+    c = copy.deepcopy(fn)
+    own = c.name
+
+    class _Self(ast.NodeTransformer):
+        def visit_Attribute(self, node):
+            self.generic_visit(node)
+            if node.attr == own and isinstance(node.value, ast.Name):
+                return ast.copy_location(ast.Name(id=own, ctx=node.ctx), node)  # Cls.f(..) inside f is f(..)
+            return node
+
+    c = _Self().visit(c)
+    c.name = "_"
+    c.decorator_list = []
+    c.returns = None
+    for n in ast.walk(c):
+        if isinstance(n, ast.Name):
+            n.id = "_"
+        elif isinstance(n, ast.Attribute):
+            n.attr = "_"
+        elif isinstance(n, ast.arg):
+            n.arg = "_"
+            n.annotation = None
+        elif isinstance(n, ast.keyword) and n.arg:
+            n.arg = "_"
+        elif isinstance(n, ast.Constant) and isinstance(n.value, str) and len(n.value) > 40:
+            n.value = "_"
+    if c.body and isinstance(c.body[0], ast.Expr) and isinstance(c.body[0].value, ast.Constant):
+        c.body = c.body[1:] or [ast.Pass()]
+    return ast.dump(c)
+
+
+class _RenameIdents(ast.NodeTransformer):
+    def __init__(self, m):
+        self.m = m
+
+    def visit_Name(self, node):
+        node.id = self.m.get(node.id, node.id)
+        return node
+
+    def visit_Attribute(self, node):
+        self.generic_visit(node)
+        node.attr = self.m.get(node.attr, node.attr)
+        return node
+
+
 def restore_function_names(trees: dict[str, ast.AST]) -> dict[str, str]:
-    """a function of the reference that is missing, next to a new function in the same scope whose body is equivalent
-    to it, is that function under a new name: the view gets the reference name back (definition and all references in
-    the package).  Only when the new name is used for nothing else and the old name is not in use any more."""
+    """functions of the reference that are missing, next to new functions whose bodies are equivalent to them once all
+    proposed renamings are applied together, are those functions under new names (or in a new place): the view gets the
+    reference names and places back -- definitions and every reference in the package.  A proposal is only accepted if
+    hsa.equiv confirms it and the reference name is not in use for anything else."""
+    import difflib
+
     from .equiv import Equiv, _canon_params
 
     log: dict[str, str] = {}
     all_trees = list(trees.values())
+    missing: list[tuple] = []  # (modname, qual, node)
+    new: list[tuple] = []
+    class_of: dict = {}
     for modname, tree in trees.items():
         ref = reference_defs(modname)
         if not ref:
             continue
         cur = _defs(tree)
-        missing = [q for q in ref if q not in cur]
-        new = [q for q in cur if q not in ref]
-        for q in missing:
+        for c in ast.walk(tree):
+            if isinstance(c, ast.ClassDef):
+                for sub in c.body:
+                    class_of[sub] = c
+        missing += [(modname, q, ref[q]) for q in ref if q not in cur]
+        new += [(modname, g, cur[g]) for g in cur if g not in ref]
+    if not missing or not new:
+        proposals = []
+    else:
+        shapes_new = [(_shape(n[2]), n) for n in new]
+        proposals = []
+        used = set()
+        for mm, q, F in missing:
+            sf = _shape(F)
             scope = q.rpartition(".")[0]
-            cands = [g for g in new if g.rpartition(".")[0] == scope]
-            for g in cands:
-                F, G = ref[q], cur[g]
-                try:
-                    same = ast.dump(_canon_params(G).args) == ast.dump(_canon_params(F).args) or True
-                    eq = Equiv(_renamed_copy(G, F.name), F).function()
-                except RecursionError:
-                    eq = False
-                if not eq:
+            best, best_score = None, 0.0
+            for k, (sg, (mg, g, G)) in enumerate(shapes_new):
+                if k in used:
                     continue
-                old_name, new_name = G.name, F.name
-                if _all_identifier_uses(all_trees, new_name) != 0:
-                    continue  # the reference name is (still) used for something
-                _rename_everywhere(all_trees, old_name, new_name)
-                # private names are mangled inside classes: `self.__x` is referenced as `_Cls__x` from outside
-                cls = scope if scope and scope in {c.name for c in ast.walk(tree) if isinstance(c, ast.ClassDef)} else None
-                for a, b in zip(_mangled(cls, old_name)[1:], _mangled(cls, new_name)[1:]):
-                    _rename_everywhere(all_trees, a, b)
-                log[f"{modname}.{g}"] = f"viewed under its reference name {q}"
-                new.remove(g)
-                break
+                same_scope = mg == mm and g.rpartition(".")[0] == scope
+                if sg == sf:
+                    score = 2.0 if same_scope else 1.5
+                elif same_scope and abs(len(sg) - len(sf)) < 0.3 * len(sf):
+                    score = difflib.SequenceMatcher(a=sf, b=sg, autojunk=False).quick_ratio()
+                    score = score if score >= 0.9 else 0.0
+                else:
+                    score = 0.0
+                if score > best_score:
+                    best, best_score = k, score
+            if best is not None:
+                used.add(best)
+                proposals.append(((mm, q, F), shapes_new[best][1]))
+    # verify all proposals under the joint renaming
+    tentative = {G.name: F.name for (_, _, F), (_, _, G) in proposals if G.name != F.name}
+    # functions proposed to have moved from a class (as staticmethod) back to module level: `Cls.f(..)` is `f(..)`
+    static_names = {F.name for (_, q, F), (_, _, G) in proposals if any(ast.unparse(d) == "staticmethod" for d in G.decorator_list) and "." not in q}
+
+    class _Unqualify(ast.NodeTransformer):
+        def visit_Attribute(self, node):
+            self.generic_visit(node)
+            if node.attr in static_names and isinstance(node.value, ast.Name):
+                return ast.copy_location(ast.Name(id=node.attr, ctx=node.ctx), node)
+            return node
+
+    accepted = []
+    for (mm, q, F), (mg, g, G) in proposals:
+        Gc = _RenameIdents(tentative).visit(copy.deepcopy(G))
+        Gc.name = F.name
+        if static_names:
+            Gc = _Unqualify().visit(Gc)
+        # a function that moved between a class (static) and module level keeps its body; decorators are compared after
+        static_to_module = any(ast.unparse(d) == "staticmethod" for d in G.decorator_list) and "." not in q
+        if static_to_module:
+            Gc.decorator_list = [d for d in Gc.decorator_list if ast.unparse(d) != "staticmethod"]
+        try:
+            ok = Equiv(Gc, F).function()
+        except RecursionError:
+            ok = False
+        if ok:
+            accepted.append(((mm, q, F), (mg, g, G), static_to_module))
+    for (mm, q, F), (mg, g, G), static_to_module in accepted:
+        old_name, new_name = G.name, F.name
+        if old_name != new_name:
+            if _binding_conflict(trees, new_name, q.rpartition(".")[0], mm):
+                continue
+            _rename_everywhere(all_trees, old_name, new_name)
+            cls_old = g.rpartition(".")[0] or None
+            cls_new = q.rpartition(".")[0] or None
+            for a, b in zip(_mangled(cls_old, old_name)[1:], _mangled(cls_new, new_name)[1:]):
+                _rename_everywhere(all_trees, a, b)
+        moved = (mg, g.rpartition(".")[0]) != (mm, q.rpartition(".")[0])
+        if moved:
+            # take the definition back to where the reference has it
+            src_tree, dst_tree = trees[mg], trees[mm]
+            holder = class_of.get(G)
+            (holder.body if holder is not None else src_tree.body).remove(G)
+            if holder is not None and not holder.body:
+                holder.body.append(ast.Pass())
+            dscope = q.rpartition(".")[0]
+            if dscope:
+                dst = next((c for c in ast.walk(dst_tree) if isinstance(c, ast.ClassDef) and c.name == dscope), None)
+                if dst is None:
+                    continue
+                dst.body.append(G)
+            else:
+                dst_tree.body.append(G)
+                # the reference module does not import its own function
+                for st in list(dst_tree.body):
+                    if isinstance(st, ast.ImportFrom):
+                        st.names = [a for a in st.names if (a.asname or a.name) != new_name]
+                        if not st.names:
+                            dst_tree.body.remove(st)
+            if static_to_module:
+                G.decorator_list = [d for d in G.decorator_list if ast.unparse(d) != "staticmethod"]
+                cname = holder.name if holder is not None else None
+                for t in all_trees:
+                    for n in ast.walk(t):
+                        for fld, val in ast.iter_fields(n):
+                            vals = val if isinstance(val, list) else [val]
+                            for idx, v in enumerate(vals):
+                                if isinstance(v, ast.Attribute) and v.attr == new_name and isinstance(v.value, ast.Name) and v.value.id in ("self", "cls", cname):
+                                    repl = ast.copy_location(ast.Name(id=new_name, ctx=ast.Load()), v)
+                                    if isinstance(val, list):
+                                        val[idx] = repl
+                                    else:
+                                        setattr(n, fld, repl)
+        log[f"{mg}.{g}"] = f"viewed as {mm}.{q}" + (" (moved back)" if moved else "")
     # nested functions renamed inside their (unchanged) parent
     for modname, tree in trees.items():
         ref = reference_defs(modname)
@@ -771,6 +933,122 @@ def _restore_nested(fn, r, where: str, log: dict) -> None:
     for name, sub in cur_nested.items():
         if name in ref_nested:
             _restore_nested(sub, ref_nested[name], f"{where}.{name}", log)
+
+
+# --------------------------------------------------------------------------- signatures
+
+
+def _sig(fn) -> tuple:
+    a = fn.args
+    pos = [x.arg for x in [*a.posonlyargs, *a.args]]
+    kwo = [x.arg for x in a.kwonlyargs]
+    defaults = {}
+    for name, d in zip(pos[len(pos) - len(a.defaults):], a.defaults):
+        defaults[name] = ast.dump(d)
+    for x, d in zip(a.kwonlyargs, a.kw_defaults):
+        if d is not None:
+            defaults[x.arg] = ast.dump(d)
+    return pos, kwo, defaults, bool(a.vararg), bool(a.kwarg), bool(a.posonlyargs)
+
+
+_ref_sig_cache: dict | None = None
+
+
+def reference_signatures() -> dict[str, tuple]:
+    """simple function / method name -> (positional params, keyword-only params) for names that have one signature in
+    the whole reference package (methods without their self/cls)"""
+    global _ref_sig_cache
+    if _ref_sig_cache is None:
+        table: dict[str, set] = {}
+        for f in os.listdir(REF_DIR):
+            if not f.endswith(".ref"):
+                continue
+            for q, fn in reference_defs(f[:-4]).items():
+                pos, kwo, defaults, va, kw, po = _sig(fn)
+                is_method = "." in q and not any(ast.unparse(d) == "staticmethod" for d in fn.decorator_list)
+                if is_method and pos:
+                    pos = pos[1:]
+                if va or kw or po:
+                    table.setdefault(fn.name, set()).add(None)
+                else:
+                    table.setdefault(fn.name, set()).add((tuple(pos), tuple(kwo)))
+        _ref_sig_cache = {k: next(iter(v)) for k, v in table.items() if len(v) == 1 and None not in v}
+    return _ref_sig_cache
+
+
+def restore_signatures(trees: dict[str, ast.AST]) -> dict[str, str]:
+    """a function whose parameters were only reordered or made keyword-only gets the reference signature back in the
+    view; every call of it in the package is re-bound by name (a call site that cannot be re-bound vetoes the change)"""
+    log: dict[str, str] = {}
+    all_trees = list(trees.values())
+    for modname, tree in trees.items():
+        ref = reference_defs(modname)
+        for q, fn in _defs(tree).items():
+            r = ref.get(q)
+            if r is None:
+                continue
+            cp, ck, cd, cva, ckw, cpo = _sig(fn)
+            rp, rk, rd, rva, rkw, rpo = _sig(r)
+            if (cp, ck) == (rp, rk) or cva or ckw or cpo or rva or rkw or rpo:
+                continue
+            if set(cp) | set(ck) != set(rp) | set(rk) or cd != rd:
+                continue
+            name = fn.name
+            is_method = "." in q and not any(ast.unparse(d) == "staticmethod" for d in fn.decorator_list)
+            in_class = "." in q
+            # the name must denote this function only among functions reached the same way: plain calls `f(..)` reach
+            # module-level functions, attribute calls `x.f(..)` reach methods
+            same_kind = 0
+            for mn2, t in trees.items():
+                for q2, f2 in _defs(t).items():
+                    if f2.name == name and ("." in q2) == in_class:
+                        same_kind += 1
+            if same_kind != 1:
+                continue
+            cur_pos = cp[1:] if is_method else cp
+            ref_pos = rp[1:] if is_method else rp
+            calls = []
+            ok = True
+            uses = 0
+            for t in all_trees:
+                for n in ast.walk(t):
+                    if isinstance(n, ast.Call):
+                        f = n.func
+                        hit = (isinstance(f, ast.Attribute) and f.attr == name) if in_class else (isinstance(f, ast.Name) and f.id == name)
+                        if hit:
+                            if any(isinstance(a, ast.Starred) for a in n.args) or any(k.arg is None for k in n.keywords) or len(n.args) > len(cur_pos):
+                                ok = False
+                            calls.append(n)
+                    if in_class:
+                        if isinstance(n, ast.Attribute) and n.attr == name:
+                            uses += 1
+                    elif isinstance(n, ast.Name) and n.id == name and isinstance(n.ctx, ast.Load):
+                        uses += 1
+            # the function used as a value (callback, partial) keeps positional meaning we cannot re-bind
+            if not ok or uses != len(calls):
+                continue
+            for c in calls:
+                given = {}
+                for pname, a in zip(cur_pos, c.args):
+                    given[pname] = a
+                for k in c.keywords:
+                    given[k.arg] = k.value
+                new_args, new_kws = [], []
+                positional_ok = True
+                for pname in ref_pos:
+                    if pname in given and positional_ok:
+                        new_args.append(given[pname])
+                    else:
+                        positional_ok = False
+                        if pname in given:
+                            new_kws.append(ast.keyword(arg=pname, value=given[pname]))
+                for pname in rk:
+                    if pname in given:
+                        new_kws.append(ast.keyword(arg=pname, value=given[pname]))
+                c.args, c.keywords = new_args, new_kws
+            fn.args = copy.deepcopy(r.args)
+            log[f"{modname}.{q}"] = f"signature ({', '.join(cp)}{' *, ' + ', '.join(ck) if ck else ''}) viewed in the reference order"
+    return log
 
 
 # --------------------------------------------------------------------------- annotations
